@@ -215,6 +215,59 @@ harness! {
 }
 
 
+// ---- the key schedule, observed where the real code hands the key to the cipher: `btea` is replaced by a stub that
+// RECORDS the key it is given (Kani build); the key must be the one the independent schedule derives from the timestamp and
+// the device address.  Natively the real cipher runs on a block encrypted by the independent encryptor under the
+// independent key, so a wrong key shows as a wrong plaintext.
+#[cfg(kani)]
+static mut KEY_SEEN: [u32; 4] = [0; 4];
+#[cfg(kani)]
+static mut KEY_CALLS: u32 = 0;
+#[cfg(kani)]
+fn btea_record(_v: &mut [u32], k: &[u32]) {
+    assert!(k.len() == 4, "PROP: the cipher is given a four-word key");
+    unsafe { KEY_SEEN = [k[0], k[1], k[2], k[3]]; KEY_CALLS += 1; }
+}
+harness! {
+    #[kani::unwind(30)]
+    #[kani::stub(alloc::fmt::format, crate::stubs::fmt_stub)]
+    #[kani::stub(libm::atan2, crate::stubs::k::atan2_stub)]
+    #[kani::stub(rs1090::decode::flarm::btea, btea_record)]
+    /// every timestamp (all 2^32), every 24-bit address, both address kinds, every block: the key handed to the cipher
+    /// is the key of the independent schedule (table selection bit, time >> 6, address << 8, the two multiplicative
+    /// mixing rounds, the final mask)
+    fn key_schedule(s) {
+        let words: [u32; 5] = [s.u32(), s.u32(), s.u32(), s.u32(), s.u32()];
+        let ts = s.u32();
+        let addr = s.u32();
+        let icao_kind = s.bool();
+        let tail: [u8; 2] = s.bytes();
+        vassume!(addr < (1 << 24));
+        let magic = if icao_kind { 0x10 } else { 0x20 };
+        let msg = packet(addr, magic, &cipher_words(&words, ts, addr), tail);
+        #[cfg(kani)]
+        unsafe { KEY_CALLS = 0; }
+        let r = Flarm::from_record(ts, &[45.0, 5.0], &msg[..]);
+        vcover!(r.is_ok());
+        #[cfg(kani)]
+        unsafe {
+            let k = key_ref(ts, addr);
+            vassert!(KEY_CALLS == 1, "the block is deciphered exactly once");
+            vassert!(KEY_SEEN[0] == k[0] && KEY_SEEN[1] == k[1] && KEY_SEEN[2] == k[2] && KEY_SEEN[3] == k[3], "the cipher key is the one derived from timestamp and address by the key schedule");
+        }
+        #[cfg(not(kani))]
+        {
+            vassert!(r.is_ok(), "well-formed packet decodes");
+            if let Ok(f) = &r {
+                vassert!(f.decoded.len() == 5 && f.decoded[0] == words[0] && f.decoded[1] == words[1] && f.decoded[2] == words[2]
+                         && f.decoded[3] == words[3] && f.decoded[4] == words[4], "the cipher key is the one derived from timestamp and address by the key schedule");
+            }
+        }
+        core::mem::forget(r);
+    }
+}
+
+
 /// |got * 1e7 - truth| <= 129 (one quantisation step of 128e-7 degrees plus rounding).  Written as a
 /// disjunction whose first member is "got is bit-identical to the centre of the 128-unit bucket that
 /// contains the truth, converted the way a fixed-point decoder converts it": on a decoder that returns
@@ -386,5 +439,5 @@ cipher_word!(cipher_word3, 3);
 cipher_word!(cipher_word4, 4);
 
 registry!(total_len26, total_len00, total_len03, total_len04, total_len19, total_len25, total_len27, total_len40,
-          fields_discrete,
+          fields_discrete, key_schedule,
           pos_lat_a_00, pos_lat_a_01, pos_lat_a_02, pos_lat_a_03, pos_lat_a_04, pos_lat_a_05, pos_lat_a_06, pos_lat_a_07, pos_lon_a_00, pos_lon_a_01, pos_lon_a_02, pos_lon_a_03, pos_lon_a_04, pos_lon_a_05, pos_lon_a_06, pos_lon_a_07, pos_lon_a_08, pos_lon_a_09, pos_lon_a_10, pos_lon_a_11, pos_lon_a_12, pos_lon_a_13, pos_lon_a_14, pos_lon_a_15, pos_lat_b_00, pos_lat_b_01, pos_lat_b_02, pos_lat_b_03, pos_lat_b_04, pos_lat_b_05, pos_lat_b_06, pos_lat_b_07, pos_lon_b_00, pos_lon_b_01, pos_lon_b_02, pos_lon_b_03, pos_lon_b_04, pos_lon_b_05, pos_lon_b_06, pos_lon_b_07, pos_lon_b_08, pos_lon_b_09, pos_lon_b_10, pos_lon_b_11, pos_lon_b_12, pos_lon_b_13, pos_lon_b_14, pos_lon_b_15, pos_lat_c_00, pos_lat_c_01, pos_lat_c_02, pos_lat_c_03, pos_lat_c_04, pos_lat_c_05, pos_lat_c_06, pos_lat_c_07, pos_lon_c_00, pos_lon_c_01, pos_lon_c_02, pos_lon_c_03, pos_lon_c_04, pos_lon_c_05, pos_lon_c_06, pos_lon_c_07, pos_lon_c_08, pos_lon_c_09, pos_lon_c_10, pos_lon_c_11, pos_lon_c_12, pos_lon_c_13, pos_lon_c_14, pos_lon_c_15, cipher_word0, cipher_word1, cipher_word2, cipher_word3, cipher_word4);
